@@ -245,7 +245,23 @@ func (r *Run) step(n uint64, mons []Monitor) bool {
 		byHash[txs[i].Hash()] = &b.Offered[i]
 	}
 	ts := parent.Time() + 1 + uint64(r.R.Intn(5))
-	res, err := r.Builder.Build(ts, build.NewOrderedTxs(r.W.Signer, txs))
+	var res *build.Result
+	if len(b.EvidenceVals) > 0 {
+		// a panic while the builder digests forged evidence is classified here (everything else is
+		// left to kill the process and be reported by the orchestrator)
+		if p := kit.Guard(func() { res, err = r.Builder.Build(ts, build.NewOrderedTxs(r.W.Signer, txs)) }); p != nil {
+			class := "builder-panic-on-evidence:" + Normalise(fmt.Sprint(p))
+			for _, t := range b.EvidenceVals {
+				if v := st.GetValidatorByMainAddr(t); v != nil && v.Stake.Sign() == 0 && strings.Contains(fmt.Sprint(p), "division by zero") {
+					class = "doublesign-evidence-against-zero-stake-validator:division-by-zero"
+				}
+			}
+			r.Violation(class, fmt.Sprintf("block %d: the block builder panics in EndBlock while processing a double-sign evidence: %v", n, p), r.Witness(b, nil))
+			return false
+		}
+	} else {
+		res, err = r.Builder.Build(ts, build.NewOrderedTxs(r.W.Signer, txs))
+	}
 	if err != nil {
 		r.Violation("builder-failed:"+Normalise(err.Error()), fmt.Sprintf("block %d: %v", n, err), r.Witness(b, nil))
 		return false
@@ -271,6 +287,18 @@ func (r *Run) step(n uint64, mons []Monitor) bool {
 	}
 	if res.StoppedForGas {
 		r.C.Count("blocks_full", 1)
+	}
+	if dbErr := res.State.Error(); dbErr != nil {
+		class := "builder-state-db-error:" + Normalise(dbErr.Error())
+		msg := fmt.Sprintf("block %d: the builder's post state carries a database error: %v", n, dbErr)
+		if strings.Contains(dbErr.Error(), "cannot encode negative") {
+			// StateDB.updateStakingTrie returns at the first record it cannot encode: the records
+			// visited before it (Go map order) are written, the others are not
+			class = "negative-staking-record-aborts-trie-flush"
+			msg = fmt.Sprintf("block %d: a pending staking record with a negative FinalValue cannot be RLP-encoded; updateStakingTrie stops at it, so which of the block's dirty records reach the staking trie depends on map iteration order (staking root differs between executions) and Commit fails with: %v", n, dbErr)
+		}
+		r.Violation(class, msg, r.Witness(b, map[string]interface{}{"negative_records": r.negativeRecords(res.State)}))
+		return false
 	}
 	if len(res.Block.Header().SlashData) > 0 {
 		r.C.Count("blocks_with_slashdata", 1)
@@ -299,6 +327,24 @@ func (r *Run) step(n uint64, mons []Monitor) bool {
 		}
 	}
 	return true
+}
+
+// negativeRecords lists the pending staking records with a negative FinalValue.
+func (r *Run) negativeRecords(st *state.StateDB) []string {
+	var out []string
+	ds := append([]common.Address{{}}, r.W.U.Addrs...)
+	for _, d := range ds {
+		for _, v := range r.W.U.Vals {
+			if rec := st.GetStakingRecord(d, v); rec != nil && rec.FinalValue.Sign() < 0 {
+				who := "validator-total record"
+				if d != (common.Address{}) {
+					who = fmt.Sprintf("delegator user %d", r.W.userIdx[d])
+				}
+				out = append(out, fmt.Sprintf("%s -> validator #%d: FinalValue %v", who, r.W.ValIndex(v), rec.FinalValue))
+			}
+		}
+	}
+	return out
 }
 
 // ---------------------------------------------------------------- C08 invariants on every block
